@@ -455,8 +455,10 @@ def sympy_ev(e, env, salt: int = 0, funcs=None) -> Fraction:
             if funcs and name in funcs:
                 return funcs[name](*args)
             return surrogate(name, args, salt)
-        if e is sympy.S.Exp1 or e is sympy.pi:
-            return surrogate(str(e), [], salt)
+        if e is sympy.S.Exp1:
+            return surrogate("exp", [Fraction(1)], salt)      # the printer writes exp(1)
+        if e is sympy.pi:
+            return env["PI"] if "PI" in env else surrogate("pi", [], salt)   # the printer writes PI
         if e is sympy.S.NaN or e is sympy.zoo or e is sympy.oo or e is -sympy.oo:
             raise Undefined(str(e))
         raise Undefined(f"unsupported sympy node {type(e).__name__}")
